@@ -148,6 +148,8 @@ def _guard(test):
     src = _u(test)
     if src == "self._facade is not None":
         return ".facadeSome"
+    if src == "self._spa is not None":
+        return ".spaSome"
     if isinstance(test, ast.Compare) and _u(test.left) == "self._spa_state" and len(test.ops) == 1:
         c = test.comparators[0]
         if isinstance(test.ops[0], ast.Eq) and _enum_ref(c, "GeckoSpaState"):
